@@ -12,7 +12,7 @@ The oracle (functions `model_*`) is plain Python on `list[str]` / `str`; it neve
 modelled by value only: after an assignment only the object assigned to is compared (NumPy and list semantics agree
 there), except for `copy()`, where independence of the copy from the original is a contract of its own.
 
-Transforms  (R = ragged, F = flat 1-d, C = 0-d):
+Transforms  (R = ragged, F = flat 1-d, M = 2-d matrix obtained by reshape, C = 0-d):
   R: a[i] a[slice] a[mask] a[fancy] a[:,slice] a[rs,cs] a[:,j] a[fancy,j] a[i,j] a[i,slice] a[a==c] copy ravel
      np.concatenate  strops.join  bnp.ragged_slice  item assignment (row, column, column slice, row slice, row
      mask, fancy rows, character mask)
@@ -208,7 +208,8 @@ def real_R(ctx, a, rows, op):
     if k == "pf":
         return a[np.array(op[1], dtype=int), np.array(op[2], dtype=int)]
     if k == "rebuild":
-        return bnp.as_encoded_array([a[i] for i in op[1]], ctx.enc)
+        rows_ = list(a)
+        return bnp.as_encoded_array([rows_[i] for i in op[1]], ctx.enc)
     if k == "rics":
         return a[op[1], S(op[2])]
     if k == "cm":
@@ -909,10 +910,11 @@ GATHER = {"rm", "rf", "cm", "copy", "cat", "join", "rsl", "m", "f", "fci", "spli
 # ----------------------------------------------------------------------------------------------------------------
 
 # regions of the scope that fail as a whole on the unchanged tree get ONE signature (README: "Failures on the unchanged tree")
-COLLAPSE = {"R.cs:negstep-nonneg-start-on-empty-row", "R.rcs:negstep-nonneg-start-on-empty-row"}
+COLLAPSE = {"R.cs:negstep-nonneg-start-on-empty-row", "R.rcs:negstep-nonneg-start-on-empty-row",
+            "R.rows-array-with-column:after-stepped-colslice"}
 
 
-def classify(kind, op, value):
+def classify(kind, op, value, prev=None):
     """specific sub-class of an operation (keeps distinct defects apart in the signature)"""
     k = op[0]
     name = "%s.%s" % (kind, k)
@@ -926,6 +928,11 @@ def classify(kind, op, value):
         name += ":" + op[1]
     if k in ("eq_rows", "ne_rows", "eq_str", "ne_str"):
         name += ":" + op[2]
+    if k == "eq_self":
+        name += ":" + op[1]
+    if k in ("pf", "fci", "as_pf", "as_fcol") and any(h[0] in ("cs", "rcs") and h[-1][2] not in (None, 1) for h in (prev or [])):
+        # a[row-index-array, column(s)] on a lazy view that descends from a[:, ::step], step != 1: fails as a region on the unchanged tree
+        return "R.rows-array-with-column:after-stepped-colslice"
     if k == "sa" and value and not any(value):
         name += ":all-rows-empty"
     return name
@@ -978,50 +985,64 @@ MODEL = {"R": model_R, "F": model_F, "M": model_M}
 REAL = {"R": real_R, "F": real_F, "M": real_M}
 
 
-def run_program(col, ctx, kind, base, copy, prog, count=True):
-    """execute one program from scratch, evaluating the contract after every step; -> True if everything held"""
-    case = {"enc": ctx.name, "kind": kind, "base": base, "copy": copy, "prog": prog}
+def execute(ctx, kind, base, copy, prog, check_at):
+    """run one program from scratch on the real classes; the contract is evaluated after the steps whose number is in
+    `check_at` (0 = construction).  Steps that are not checked are not looked at at all: decoding an EncodedRaggedArray
+    flattens a lazy view in place, so observing an intermediate object would erase the history the property is about.
+    -> (None | (step-class, failtype, message), class of the last step executed)"""
     value = base
     step = "%s.construct" % kind
-    try:
-        return _run_program(col, ctx, kind, base, copy, prog, case)
-    finally:
-        if count:
-            col.case(case, nontrivial=bool(base) and any(base), contract=_LAST_STEP[0].split(":")[0])
-
-
-_LAST_STEP = ["?"]
-
-
-def _run_program(col, ctx, kind, base, copy, prog, case):
-    value = base
-    step = _LAST_STEP[0] = "%s.construct" % kind
+    si = -1
+    prev = []
     try:
         obj = build_base(ctx, kind, base, copy)
-        bad = check_value(ctx, kind, obj, value)
-        if bad:
-            col.fail(signature(step, bad[0]), case, "step 0 (as_encoded_array): " + bad[1])
-            return False
+        if 0 in check_at:
+            bad = check_value(ctx, kind, obj, value)
+            if bad:
+                return (step, bad[0], "step 0 (as_encoded_array): " + bad[1]), step
         for si, op in enumerate(prog):
-            step = _LAST_STEP[0] = classify(kind, op, value)
+            step = classify(kind, op, value, prev)
             if is_obs(kind, op):
                 exp, got = OBS[kind](ctx, obj, value, op)
                 if exp != got:
-                    col.fail(signature(step, "wrong-result"), case, "step %d %r on %r: got %r expected %r" % (si + 1, op, value, got, exp))
-                    return False
+                    return (step, "wrong-result", "step %d %r on %r: got %r expected %r" % (si + 1, op, value, got, exp)), step
                 continue
             nkind, nvalue = MODEL[kind](ctx, value, op)
             nobj = REAL[kind](ctx, obj, value, op)
-            bad = check_value(ctx, nkind, nobj, nvalue)
-            if bad:
-                col.fail(signature(step, bad[0]), case, "step %d %r on %r: %s" % (si + 1, op, value, bad[1]))
-                return False
-            kind, value, obj = nkind, nvalue, nobj
+            if (si + 1) in check_at:
+                bad = check_value(ctx, nkind, nobj, nvalue)
+                if bad:
+                    return (step, bad[0], "step %d %r on %r: %s" % (si + 1, op, value, bad[1])), step
+            kind, value, obj, prev = nkind, nvalue, nobj, prev + [op]
     except Exception as e:
         import traceback
-        col.fail(signature(step, "exception:" + type(e).__name__), case, "%r\n%s" % (prog, traceback.format_exc()[-450:]))
+        return (step, "exception:" + type(e).__name__, "step %d of %r\n%s" % (si + 1, prog, traceback.format_exc()[-450:])), step
+    return None, step
+
+
+def run_program(col, ctx, kind, base, copy, prog, count=True):
+    """-> True if the contract held.  The program is first run checking only its last step (intermediate objects untouched).
+    On a failure it is re-run with the contract evaluated after every step and the failure is attributed to the first
+    failing step; a failure that does not show then (it needs an un-observed intermediate object) is attributed to the
+    first step j at which it shows when only step j is checked, with the suffix ':unobserved-history'."""
+    case = {"enc": ctx.name, "kind": kind, "base": base, "copy": copy, "prog": prog}
+    n = len(prog)
+    bad, last = execute(ctx, kind, base, copy, prog, {n})
+    if count:
+        col.case(case, nontrivial=bool(base) and any(base), contract=last.split(":")[0])
+    if bad is None:
+        return True
+    bad2, _ = execute(ctx, kind, base, copy, prog, set(range(n + 1)))
+    if bad2 is not None:
+        col.fail(signature(bad2[0], bad2[1]), case, bad2[2])
         return False
-    return True
+    for j in range(1, n + 1):
+        bad3, _ = execute(ctx, kind, base, copy, prog[:j], {j})
+        if bad3 is not None:
+            bad = bad3
+            break
+    col.fail(signature(bad[0], bad[1]) + ":unobserved-history", case, bad[2] + "  (holds when every intermediate object is decoded first)")
+    return False
 
 
 def writable_after(kind, base_kind, copy, prefix):
@@ -1103,7 +1124,7 @@ def plan(tier):
     P.append(("d2-other-encodings", ENCS_OTHER, "R", [(2, 0, 3)] if q else [(2, 0, 3), (0, 2), (3, 1)], [False], 2, "core", 300 if q else None))
     P.append(("d2-other-encodings-flat", ENCS_OTHER, "F", [(4,)], [True], 2, "core", 150 if q else None))
     # depth 3 (sampled with the seed: the space of CORE x CORE x (CORE + observations) is ~65 000 programs per shape) ----
-    P.append(("d3", ENCS_MAIN, "R", REPR_SHAPES, [False], 3, "core", 200 if q else 9000))
+    P.append(("d3", ENCS_MAIN, "R", REPR_SHAPES, [False], 3, "core", 200 if q else 6000))
     P.append(("d3-flat", ENCS_MAIN, "F", [(0,), (2,), (4,)], [True], 3, "core", 200 if q else 4000))
     return P
 
